@@ -13,6 +13,7 @@ def run(run):
     n = 33 if run.tier == 'quick' else 165
     tasks = [('program', (name, seed, {})) for (name, seed) in models.programs(run.seed, n)]
     tasks += [('program', (name, seed, {'dimension_reduction_heuristic': 'trace'})) for (name, seed) in models.programs(run.seed + 2, 12)]
+    tasks += [('program', ('T_user_lmi', v, {})) for v in (8, 10, 12, 14)]          # LMIs with a constant in the off-diagonal entries (primal <= dual)
     tasks += [('program', ('T_scaled', i, {'dimension_reduction_heuristic': h})) for i in range(2) for h in (None, 'trace', 'logdet1')]
     hc.solve_scenarios(run, 'C02', tasks, 'rt-solve-instance',
                        'seeded DSL programs; after each finite solve: inner products of evaluated leaf points vs PSD projection of the Gram matrix, every handle '
